@@ -101,15 +101,6 @@ theorem headerItems_wrap {ε : Type} (hdrs : List ε) (e : ε) : headerItems (so
 
 theorem isBytes_ID : IsBytes sID := by decide
 
-/-- For a destination without `?` and `#` the hand-glued URL is what `add_query` would build. -/
-theorem uriUrl_eq_addQuery (msg dest rs : Bytes) (hq : 63 ∉ dest) (hh : 35 ∉ dest) :
-    uriUrl msg dest rs = addQuery dest (urlencode (withRelay (sID, msg) rs)) := by
-  unfold uriUrl addQuery
-  have ht : dest.takeWhile (· != 35) = dest := takeWhile_all' dest (ne_of_not_mem hh)
-  have hd : dest.dropWhile (· != 35) = [] := dropWhile_all' dest (ne_of_not_mem hh)
-  have hc : dest.contains 63 = false := by simpa using hq
-  simp only [ht, hd, hc, Bool.not_false, if_true, List.append_nil]
-
 theorem dropWhile_space_id (t : List Nat) (h : ∀ c, t.head? = some c → pyIsSpace c = false) :
     t.dropWhile pyIsSpace = t := by
   cases t with
